@@ -1,0 +1,65 @@
+//go:build verif
+
+package cluster
+
+import (
+	"fmt"
+	"os"
+	"strconv"
+	"strings"
+	"sync"
+)
+
+/* Fault points for verification harnesses that run nodes as separate
+ * processes. VERIF_CLUSTER_FAULTS holds a comma separated list of
+ * point:index:action[:marker] entries, e.g. "recv-chunk:1:error" or
+ * "send-chunk:2:exit:/tmp/fired". Actions: error (the call fails), exit (the
+ * process dies on the spot). With a marker file the fault fires only while the
+ * file does not exist and creates it when it fires, i.e. once across restarts. */
+
+type verifFault struct {
+	point  string
+	index  int
+	action string
+	marker string
+}
+
+var verifFaults []verifFault
+var verifFaultsOnce sync.Once
+
+func verifPoint(point string, index int) error {
+	verifFaultsOnce.Do(func() {
+		for _, entry := range strings.Split(os.Getenv("VERIF_CLUSTER_FAULTS"), ",") {
+			parts := strings.SplitN(strings.TrimSpace(entry), ":", 4)
+			if len(parts) < 3 {
+				continue
+			}
+			idx, err := strconv.Atoi(parts[1])
+			if err != nil {
+				continue
+			}
+			f := verifFault{point: parts[0], index: idx, action: parts[2]}
+			if len(parts) == 4 {
+				f.marker = parts[3]
+			}
+			verifFaults = append(verifFaults, f)
+		}
+	})
+	for _, f := range verifFaults {
+		if f.point != point || f.index != index {
+			continue
+		}
+		if f.marker != "" {
+			if _, err := os.Stat(f.marker); err == nil {
+				continue
+			}
+			os.WriteFile(f.marker, []byte(point), 0644)
+		}
+		fmt.Fprintf(os.Stderr, "VERIF-FAULT %s %d %s\n", point, index, f.action)
+		if f.action == "exit" {
+			os.Exit(17)
+		}
+		return fmt.Errorf("injected fault at %s %d", point, index)
+	}
+	return nil
+}
